@@ -4,9 +4,12 @@ set -e
 cd "$(dirname "$0")/.."
 export GOFLAGS=-mod=mod GOPROXY=off GOSUMDB=off GOTOOLCHAIN=local CGO_ENABLED=0
 mkdir -p build evidence replays
-sh coq/mkproject.sh
-timeout 3000 make -C coq -f Makefile.coq -j16
-sh ocaml/build.sh
+bin/coqmake
 cp /repo/go.sum harness/go.sum
-(cd harness && go build -tags verif -o ../build/vh .)
+for f in coq/Properties/C*.v; do
+  p=$(basename "$f" .v)
+  sh ocaml/build.sh "$p"
+  lc=$(echo "$p" | tr A-Z a-z)
+  if [ -d "harness/cmd/$lc" ]; then (cd harness && go build -tags verif -o "../build/vh-$p" "./cmd/$lc"); fi
+done
 echo setup ok
